@@ -276,3 +276,15 @@ func newFrameSource(src io.Reader, drw *dialect.ReadWriter, key *frame.V2Key) (f
 	}
 	return rd, nil
 }
+
+// mkKey builds a key the way an application may: from a scratch buffer that it wipes (or reuses for the next key)
+// right afterwards. The key is the bytes it was made from, not the buffer.
+func mkKey(raw []byte) *frame.V2Key {
+	scratch := make([]byte, len(raw), len(raw)+16)
+	copy(scratch, raw)
+	k := frame.NewV2Key(scratch)
+	for i := range scratch {
+		scratch[i] = 0xA5
+	}
+	return k
+}
